@@ -20,6 +20,10 @@ CHECKS = {
                 technique="property-based testing: generated states; copy/pickle/snapshot equality + interleaved differential evolution; exhaustive per-state single-field mutation through the exported descriptor table against compare",
                 text="For generated states (all integrators mid-run, unsynchronised, variational/MEGNO, mergers, tree) a copy, pickle, byte stream and file snapshot must compare equal to the source in both argument orders, stay bitwise equal under a generated interleaving of operations on copy and source, and operations on one must leave the other's field map untouched. For every persisted field present in a state (descriptor list enumerated per state) a one-bit / one-element / shorter / absent mutation of a copy must be reported by compare, walltime fields must not; random public-API edits must be reported iff the harness's own field maps differ. Exploration over generated states; the field enumeration is complete per state.",
                 note="Trusts the exported descriptor table for offsets and the harness's own format parser as the definition of persisted content. Callbacks are re-attached on the copy before comparing (the callbacks-used flag is persisted). Numeric (not bit) equality of doubles is accepted from compare: -0.0 vs 0.0 is not counted as a difference, NaN states are not generated. With a tree the particle order is not part of the state."),
+    "C07": dict(level="fault_enumeration", design="1/C07",
+                technique="fault enumeration over generated archives: every byte offset of every write (initial file, torn 12-byte trailer patch, appended delta) as a crash image; oracle = uninterrupted run's snapshots (own format parser) + restart differential",
+                text="For Hypothesis-generated uninterrupted runs (manual and automatic cadence, bit-wise restartable integrators, structural edits between snapshots) the file image after each write is recorded and EVERY prefix cut of every write is materialised (exhaustive per archive, ~5000 images each). Each image is opened through the Python class and both C entry points in a contained worker: no crash, an error iff no snapshot is complete, otherwise exactly the completed snapshots with contents equal to the uninterrupted run; restart from the last exposed snapshot with the same cadence must reproduce the uninterrupted archive (every offset in the thorough tier, a stride plus all torn-patch/END cuts in quick).",
+                note="Crash model = prefix of one write's bytes (plus the 'append landed, patch did not' reordering class for the read checks only); no arbitrary corruption. Images are computed from the before/after file images (verified to differ only in the trailer patch and the tail). A cut inside the final 12-byte trailer may expose k or k+1 snapshots. Under this model the reader's offset checksum is redundant (mutant offset-check-disabled is equivalent)."),
 }
 
 NOT_APPLICABLE = []
